@@ -749,9 +749,25 @@ class FortranHarness(object):
                 return None
             cname = {("integer", 4): "INT", ("integer", 8): "LONG", ("integer", 2): "SHORT", ("real", 4): "FLOAT",
                      ("real", 8): "DOUBLE"}.get((a.family, a.esz))
+            # the tag is that of the C type the (fortran_generic variant's) declaration names: SH_TYPE_<TYPE NAME>
+            for prm in (self.node.ast.params or []):
+                if prm.name and prm.name.lower() == m.group(2).lower() and prm.typemap is not None:
+                    cname = prm.typemap.name.upper().replace(" ", "_")
             hdr = "".join(t for n_, t in self.fb.files.items() if n_.startswith("types") and n_.endswith(".h"))
-            mm = re.search(r"(?m)^#define\s+SH_TYPE_%s\s+(\d+)\s*$" % cname, hdr) if cname else None
-            return z3.BitVecVal(int(mm.group(1)), 64) if mm else None
+            def tag_value(name, depth=0):
+                mm = re.search(r"(?m)^#define\s+SH_TYPE_%s\s+(.+?)\s*$" % re.escape(name), hdr)
+                if not mm or depth > 3:
+                    return None
+                txt = mm.group(1)
+                if txt.isdigit():
+                    return int(txt)
+                m2 = re.match(r"^SH_TYPE_(\w+)\s*\+\s*(\d+)$", txt)        # the unsigned types are '<signed tag> + 100'
+                if m2:
+                    base = tag_value(m2.group(1), depth + 1)
+                    return None if base is None else base + int(m2.group(2))
+                return None
+            tv = tag_value(cname) if cname else None
+            return z3.BitVecVal(tv, 64) if tv is not None else None
         if m.group(1) == "len" and a.kind == "char":
             return a.n
         if m.group(1) == "len_trim" and a.kind == "char":
@@ -1099,7 +1115,29 @@ def direct_binding_verdict(key, fname):
     return None
 
 
+def capsule_intent_verdict(key, fname):
+    """A capsule dummy that receives a block the caller owns must be intent(OUT): Fortran then finalises what the actual
+    argument still holds before the call, so a capsule variable used for two calls in a row releases the first block.
+    (The finalisation happens at the call site, so no generated procedure's GIMPLE shows it; the declaration does.)"""
+    fb = fbuild(key)
+    f = fb.procs.get(fname)
+    if f is None or f.ast.attrs["owner"] != "caller":
+        return None
+    text = "".join(t for n, t in fb.files.items() if n.endswith(".f"))
+    m = re.search(r"(?ims)^\s*(?:[\w()=, ]*\s)?function\s+%s\s*\(.*?^\s*end function\s+%s\b" % (re.escape(fname), re.escape(fname)), text)
+    if not m:
+        return None
+    for ln in m.group(0).splitlines():
+        mm = re.match(r"(?i)^\s*type\(\w*SHROUD_capsule\),\s*intent\((\w+)\)\s*::", ln)
+        if mm and mm.group(1).upper() != "OUT":
+            return ("%s hands a block the caller owns to its capsule argument, which is declared intent(%s): what the capsule still "
+                    "holds from an earlier call is not finalised and can never be released" % (fname, mm.group(1).upper()))
+    return None
+
+
 def resolve_symbolic(w):
+    if w.get("kernel") == "capsule-intent":
+        return capsule_intent_verdict(tuple(w["build"]), w["function"])
     if w.get("kernel") == "direct-binding":
         return direct_binding_verdict(tuple(w["build"]), w["function"])
     a = driver.explore(("harness.C01", "make", dict(build_key=w["build"], fname=w["function"], cap=w.get("cap", 3))), nworkers=1)
@@ -1132,6 +1170,9 @@ def main():
             rep.inconc("cannot build %s: %s" % (key[0], str(ex)[:300]))
             continue
         for fname in sorted(fb.procs):
+            cv = capsule_intent_verdict(key, fname)
+            if cv:
+                direct_viol.append({"kernel": "capsule-intent", "build": list(key), "function": fname, "what": cv})
             if fname not in fb.functions:
                 dv = direct_binding_verdict(key, fname)
                 if dv:
